@@ -223,6 +223,18 @@ def builder(prog, chk):
         name = og.callee_name(t)
         if re.search(r"ByteOrder>::write_u|copy_from_slice|::fill$|AttributeWriteExt>::write_into|AttrOrRaw::<'a>::write_into|MessageType::write_into|write_into_unchecked|IndexMut<", name):
             writes.append((bi, name))
+    # writes inside closures created in this body (fold / try_fold / for_each bodies) count at the block that creates them
+    WR = r"ByteOrder>::write_u|copy_from_slice|::fill$|AttributeWriteExt>::write_into|AttrOrRaw::<'a>::write_into|MessageType::write_into|write_into_unchecked|IndexMut<"
+    for bi, si, s_ in b.iter_stmts():
+        if s_["k"] == "assign" and s_["rv"]["k"] == "aggregate" and s_["rv"].get("agg") == "closure":
+            ck = s_["rv"].get("key") or s_["rv"].get("closure")
+            cb_ = prog.bodies.get(ck)
+            if cb_ is not None:
+                cog = Origins(prog, cb_)
+                for _, t2 in cb_.calls():
+                    n2 = cog.callee_name(t2)
+                    if re.search(WR, n2):
+                        writes.append((bi, n2))
     undominated = [(bi, n) for bi, n in writes if not b.dominates(fit, bi)]
     chk.ob("builder-guard", "every write of MessageBuilder::write_into is dominated by the `fits` arm of the size guard", bool(writes) and not undominated,
            detail="not dominated: %s" % undominated[:3], how="dominance over %d write sites" % len(writes))
